@@ -408,6 +408,69 @@ def frozen(d, value_src):
   return n
 
 
+def _same_value(a_src, b_src, pre=''):
+  """Whether two value sources denote equal values (1 == True == 1.0 ...)."""
+  if a_src == b_src:
+    return True
+  try:
+    env = dict(_ENV)
+    if pre:
+      exec(pre, env)  # pylint: disable=exec-used
+    return bool(eval(a_src, env) == eval(b_src, env))  # pylint: disable=eval-used
+  except Exception:  # pylint: disable=broad-except
+    return False
+
+
+def modified(base, none=False, default=None, freeze=None):
+  """`base` with the spec modifiers chained in source order
+  `.noneable()` `.set_default(default)` `.freeze(freeze)`.
+
+  default: value source or None; freeze: None (not frozen), '' (freeze at the
+  current default) or a value source.  Model, from the documented meaning of
+  the modifiers: a noneable spec also accepts None (and has default None when
+  it had none; `Dict.noneable()` always resets the default to None); a default
+  makes the field optional; a frozen spec accepts nothing but its frozen value
+  -- whatever else the spec would accept, None included.
+  """
+  src = base.src + ('.noneable()' if none else '')
+  name = base.name + ('?' if none else '')
+  is_dict_spec = hasattr(base, 'fields') and not hasattr(base, 'cls_name')
+  has_default, dflt = base.has_default, base.default
+  dflt_src = getattr(base, 'default_src', None) or (repr(base.default) if has_default else None)
+  if none and (not has_default or is_dict_spec):
+    has_default, dflt, dflt_src = True, None, 'None'
+  if default is not None:
+    src += f'.set_default({default})'
+    name += f'={default}'
+    has_default, dflt_src = True, default
+  if freeze is not None:
+    src += f'.freeze({freeze})'
+    name += f'!{freeze}'
+    if freeze:
+      has_default, dflt_src = True, freeze
+    if not has_default or dflt_src is None:
+      raise ValueError(f'{src}: nothing to freeze at')
+  if dflt_src is not None:
+    env = dict(_ENV)
+    if base.pre:
+      exec(base.pre, env)  # pylint: disable=exec-used
+    dflt = plain(eval(dflt_src, env))  # pylint: disable=eval-used
+  can_none = none or base.noneable
+  valid = list(base.valid) + ([('None', 'None')] if can_none and ('None', 'None') not in base.valid else [])
+  invalid = [t for t in base.invalid if not (can_none and t[1] == 'None')]
+  if freeze is not None:
+    others = ([('frozen-other-value:None' if s == 'None' else 'frozen-other-value', s) for _, s in valid]
+              + [(lab, s) for lab, s in invalid])
+    invalid = [(lab, s) for lab, s in others if not _same_value(s, dflt_src, base.pre)]
+    valid = [('frozen-value', dflt_src)]
+  n = Desc(name, src, base._ok, valid, invalid, pre=base.pre)  # pylint: disable=protected-access
+  n.__dict__.update({k: v for k, v in base.__dict__.items() if k in ('elem', 'lo', 'hi', 'fields', 'cls_name')})
+  n.noneable = can_none
+  n.has_default, n.default, n.default_src = has_default, dflt, dflt_src
+  n.frozen = freeze is not None
+  return n
+
+
 NC = dict(raise_on_no_change=False)
 _ENV = dict(pg=pg, T=T, M=M, Ins=Ins, NC=NC)
 _CODE = {}
@@ -673,7 +736,7 @@ class Run:
         else:
           out.append(f'{var}.rebind(zz=1)')
         for k, d in desc.fields:
-          if isinstance(k, str) and k in ('f', 'l', 'd'):
+          if isinstance(k, str) and k in ('f', 'l', 'd') and not d.frozen:   # frozen content: own case id
             try:
               child = value.sym_getattr(k)
             except Exception:  # pylint: disable=broad-except
@@ -918,17 +981,15 @@ def _classes(sub):
 
 def _x_image(sub, root_img):
   """Image of x inside the image of root (from the subject's setup)."""
-  m = re.search(r'\nx=root(.*)$', sub.setup)
+  m = re.search(r'\nx=root((?:\.\w+|\[\d+\])*)$', sub.setup)
   if m is None or 'root=x=' in sub.setup:
     return root_img
-  acc = m.group(1)
-  if acc == '.l':
-    return root_img[1]['l'] if isinstance(root_img, tuple) else root_img['l']
-  if acc == '[0]':
-    return root_img[0]
-  if acc == '.d':
-    return root_img[1]['d'] if isinstance(root_img, tuple) else root_img['d']
-  raise ValueError(acc)
+  img = root_img
+  for name, idx in re.findall(r'\.(\w+)|\[(\d+)\]', m.group(1)):
+    if isinstance(img, tuple) and len(img) == 2 and isinstance(img[1], dict):
+      img = img[1]          # image of a pg.Object: (class name, attributes)
+    img = img[name] if name else img[int(idx)]
+  return img
 
 
 def _on_x(sub, before, after, g):
@@ -1121,27 +1182,27 @@ def _dict_batch_ok(keys_valid):
 _ANY = object()
 
 
-def dict_ops(sub, fd, present):
-  """All dict/object write paths aimed at field `f` (spec fd) and friends.
+class _OpList:
+  """Builds op dicts for a dict/object subject: `add` one op, `paths` every
+  single-location write path for (key, value source)."""
 
-  present: plain image of x before (to know what is missing / present).
-  """
-  kind = sub.kind
-  partial = sub.partial or sub.scope_partial
-  ops = []
-  img = present[1] if isinstance(present, tuple) else present
+  def __init__(self, sub, img, ops, partner=('g', '2', 2)):
+    self.sub, self.kind, self.img, self.ops = sub, sub.kind, img, ops
+    self.partner = partner      # (key, source, value): a valid write batched with the one under test
 
-  def add(name, src, cls, why=None, batch=None, result=None):
+  def add(self, name, src, cls, why=None, batch=None, result=None):
+    sub, kind = self.sub, self.kind
     op = dict(src=src, cid=f'{kind}.{name}/{cls}', expect='reject' if why else 'any', why=why, result=result)
     if why and 'symbolic-partial' in why:
       op['cid'] = f'{kind}.write/partial-symbolic-value-into-non-partial'   # one input class, any path
     if batch is not None:
       g = _dict_batch_ok(batch)
       op['batch_ok'] = lambda b, a, g=g: _on_x(sub, b, a, g)
-    ops.append(op)
+    self.ops.append(op)
 
-  def paths(key, s, cls, why, tag=''):
+  def paths(self, key, s, cls, why, tag=''):
     """Every single-location write path for (key, value source)."""
+    add, kind, sub, img = self.add, self.kind, self.sub, self.img
     ident = isinstance(key, str) and key.isidentifier()
     if kind == 'dict':
       add('setitem' + tag, f'x[{key!r}]={s}', cls, why)
@@ -1164,14 +1225,41 @@ def dict_ops(sub, fd, present):
         cls if key in img else 'absent-key-no-op', why if key in img else None)
     add('clone-override' + tag, f'y=x.clone(override={{{key!r}:{s}}})', cls, why, result=sub.x_desc)
     add('clone-override' + tag, f'y=x.clone(deep=True,override={{{key!r}:{s}}})', cls, why, result=sub.x_desc)
-    # batches: a valid write to g first / after
-    vg = {'g': 2}
+    # batches: a valid write to the partner key first / after
+    pk, ps, pv = self.partner
+    if pk == key:
+      return
+    vg = {pk: pv}
     if kind == 'dict':
-      add('update-multi' + tag, f'x.update({{"g":2,{key!r}:{s}}})', cls, why, batch=vg)
-      add('update-multi' + tag, f'x.update({{{key!r}:{s},"g":2}})', cls, why, batch=vg)
-      add('ior-multi' + tag, f'x|={{"g":2,{key!r}:{s}}}', cls, why, batch=vg)
-    add('rebind-multi' + tag, f'x.rebind({{"g":2,{key!r}:{s}}},**NC)', cls, why, batch=vg)
-    add('rebind-multi' + tag, f'x.rebind({{{key!r}:{s},"g":2}},**NC)', cls, why, batch=vg)
+      add('update-multi' + tag, f'x.update({{"{pk}":{ps},{key!r}:{s}}})', cls, why, batch=vg)
+      add('update-multi' + tag, f'x.update({{{key!r}:{s},"{pk}":{ps}}})', cls, why, batch=vg)
+      add('ior-multi' + tag, f'x|={{"{pk}":{ps},{key!r}:{s}}}', cls, why, batch=vg)
+    add('rebind-multi' + tag, f'x.rebind({{"{pk}":{ps},{key!r}:{s}}},**NC)', cls, why, batch=vg)
+    add('rebind-multi' + tag, f'x.rebind({{{key!r}:{s},"{pk}":{ps}}},**NC)', cls, why, batch=vg)
+
+
+def _value_class(lab):
+  """Input class of an invalid sample, for case ids (fine mode)."""
+  if lab.startswith('frozen-other-value') or lab == 'None':
+    return 'invalid-value:' + lab
+  return 'invalid-value'
+
+
+def dict_ops(sub, fd, present, focus=False, fine=False):
+  """All dict/object write paths aimed at field `f` (spec fd) and friends.
+
+  present: plain image of x before (to know what is missing / present).
+  focus: only the operations that involve field f.
+  fine: the class of an invalid value (None / frozen-other-value / other) is
+    part of the case id.
+  """
+  kind = sub.kind
+  partial = sub.partial or sub.scope_partial
+  ops = []
+  img = present[1] if isinstance(present, tuple) else present
+
+  b = _OpList(sub, img, ops)
+  add, paths = b.add, b.paths
 
   # 1. field f: valid and invalid values (a value that merely lacks required
   # members is acceptable when partial values are allowed)
@@ -1180,11 +1268,12 @@ def dict_ops(sub, fd, present):
   for lab, s in f_valid:
     paths('f', s, 'valid-value', None)
   for lab, s in f_invalid:
-    paths('f', s, 'invalid-value', f'invalid value for f ({lab})')
+    paths('f', s, _value_class(lab) if fine else 'invalid-value', f'invalid value for f ({lab})')
   # 2. constructor / from_json / nested paths
   req_r = '"r":1'
   for lab, s, valid in [(l, s, True) for l, s in f_valid] + [(l, s, False) for l, s in f_invalid]:
-    cls, why = ('valid-value', None) if valid else ('invalid-value', f'invalid value for f ({lab})')
+    cls, why = ('valid-value', None) if valid else (_value_class(lab) if fine else 'invalid-value',
+                                                    f'invalid value for f ({lab})')
     pcls, pwhy = (cls, why) if 'missing-required' not in lab else ('valid-value', None)
     if kind == 'dict':
       add('ctor', f'y=pg.Dict({{"f":{s},{req_r}}},value_spec=x.value_spec)', cls, why, result=sub.x_desc)
@@ -1202,7 +1291,7 @@ def dict_ops(sub, fd, present):
     if d.frozen or d.has_default or partial:
       return 'valid-removal', None
     return 'required-removal', f'{key} is required (no default, not partial)'
-  for key, d in (('f', fd), ('g', None), ('r', None), ('h', None)):
+  for key, d in (('f', fd), ('g', None), ('r', None), ('h', None))[:1 if focus else 4]:
     d = d or dict((k, dd) for k, dd in sub.x_desc.fields if not isinstance(k, tuple))[key]
     cls, why = removal(key, d)
     paths(key, 'M', cls, why, tag='-MISSING')
@@ -1212,11 +1301,13 @@ def dict_ops(sub, fd, present):
       add('pop', f'x.pop({key!r})', cls, why)
       add('pop', f'x.pop({key!r},None)', cls, why)
   # 4. other fields: frozen h, required r, undeclared, dynamic, non-str keys
-  paths('h', '7', 'frozen-same-value', None)
-  paths('h', '8', 'frozen-other-value', 'h is frozen at 7')
-  paths('r', '5', 'valid-value', None)
-  paths('r', '6', 'invalid-value', 'r: 6 > max 5')
-  paths('zz', '1', 'undeclared-key', 'zz is not declared')
+  others = not focus
+  if others:
+    paths('h', '7', 'frozen-same-value', None)
+    paths('h', '8', 'frozen-other-value', 'h is frozen at 7')
+    paths('r', '5', 'valid-value', None)
+    paths('r', '6', 'invalid-value', 'r: 6 > max 5')
+    paths('zz', '1', 'undeclared-key', 'zz is not declared')
   if kind == 'object':
     # `obj.zz = 1` on an undeclared name is an ordinary Python attribute, not a
     # write into the schema-governed state: only the generic checks apply.
@@ -1224,17 +1315,18 @@ def dict_ops(sub, fd, present):
       if o['src'] == 'x.zz=1':
         o.update(expect='any', why=None, cid='object.setattr/undeclared-name-plain-attribute')
   if kind == 'dict':
-    paths('x1', '5', 'dynamic-key-valid', None)
-    paths('x1', '6', 'dynamic-key-invalid-value', 'x*: 6 > max 5')
-    paths('y1', '1', 'undeclared-key', 'y1 matches no key spec')
-    add('setitem', 'x[1]=1', 'non-str-key', 'int key is not declared')
-    add('ctor', 'y=pg.Dict({"f":1,"r":1,"zz":1},value_spec=x.value_spec)' if not fd.frozen else
-        'y=pg.Dict({"r":1,"zz":1},value_spec=x.value_spec)', 'undeclared-key', 'zz is not declared', result=sub.x_desc)
-    add('setdefault', 'x.setdefault("zz",1)', 'undeclared-key', 'zz is not declared')
-    add('setdefault', 'x.setdefault("x2",6)', 'dynamic-key-invalid-value', 'x*: 6 > max 5')
-    add('setdefault', 'x.setdefault("x2",5)', 'dynamic-key-valid')
-    add('setdefault', 'x.setdefault("r",6)', 'invalid-value' if is_missing(img.get('r', M)) else 'present-key',
-        'r: 6 > max 5' if is_missing(img.get('r', M)) else None)
+    if others:
+      paths('x1', '5', 'dynamic-key-valid', None)
+      paths('x1', '6', 'dynamic-key-invalid-value', 'x*: 6 > max 5')
+      paths('y1', '1', 'undeclared-key', 'y1 matches no key spec')
+      add('setitem', 'x[1]=1', 'non-str-key', 'int key is not declared')
+      add('ctor', 'y=pg.Dict({"f":1,"r":1,"zz":1},value_spec=x.value_spec)' if not fd.frozen else
+          'y=pg.Dict({"r":1,"zz":1},value_spec=x.value_spec)', 'undeclared-key', 'zz is not declared', result=sub.x_desc)
+      add('setdefault', 'x.setdefault("zz",1)', 'undeclared-key', 'zz is not declared')
+      add('setdefault', 'x.setdefault("x2",6)', 'dynamic-key-invalid-value', 'x*: 6 > max 5')
+      add('setdefault', 'x.setdefault("x2",5)', 'dynamic-key-valid')
+      add('setdefault', 'x.setdefault("r",6)', 'invalid-value' if is_missing(img.get('r', M)) else 'present-key',
+          'r: 6 > max 5' if is_missing(img.get('r', M)) else None)
     for lab, s in fd.invalid[:3]:
       miss = is_missing(img.get('f', M))
       add('setdefault', f'x.setdefault("f",{s})', 'invalid-value' if miss else 'present-key',
@@ -1248,7 +1340,7 @@ def dict_ops(sub, fd, present):
     add('clear', 'x.clear()', 'valid' if (all_default or partial) else 'required-field',
         None if (all_default or partial) else 'required fields have no default')
     add('copy', 'y=x.copy()', 'valid', result=sub.x_desc)
-  else:
+  elif others:
     add('ctor', 'y=Obj(r=1,zz=1' + ('' if fd.frozen else f',f={fd.valid[0][1]}') + ')', 'undeclared-key', 'zz is not declared', result=sub.x_desc)
     add('ctor', 'y=Obj()', 'valid' if sub.scope_partial else 'missing-required',
         None if sub.scope_partial else 'r is required', result=sub.x_desc)
@@ -1258,7 +1350,37 @@ def dict_ops(sub, fd, present):
   add('clone', 'y=__import__("copy").deepcopy(x)', 'valid', result=sub.x_desc)
   # 5. nested paths when f is a container
   f_now = img.get('f', M)
-  if hasattr(fd, 'elem') and isinstance(f_now, list) and f_now:
+  if fd.frozen:
+    # Writes into the content of a frozen container field: whatever changes the
+    # content makes the field differ from its frozen value.
+    why = 'f is frozen'
+    fkind = 'list' if hasattr(fd, 'elem') else 'object' if hasattr(fd, 'cls_name') else 'dict'
+    cw = lambda name, src: add('child-write', src, f'frozen-{fkind}-field', why + ', ' + name)
+    if hasattr(fd, 'elem') and isinstance(f_now, list):
+      other = [s for _, s in fd.elem.valid if not (f_now and _same_value(s, repr(f_now[0]), fd.pre))][0]
+      cw('child-append', f'x.f.append({other})')
+      cw('child-iadd', f'x.f.__iadd__([{other}])')
+      cw('child-insert', f'x.f.insert(0,{other})')
+      cw('rebind-path', f'x.rebind({{"f[{len(f_now)}]":{other}}})')
+      if f_now:
+        cw('child-setitem', f'x.f[0]={other}')
+        cw('rebind-path', f'x.rebind({{"f[0]":{other}}})')
+        cw('child-delitem', 'del x.f[0]')
+        cw('child-pop', 'x.f.pop()')
+        cw('child-clear', 'x.f.clear()')
+    elif hasattr(fd, 'fields') and isinstance(f_now, (dict, tuple)) and fd.name.startswith(('Dict(p', 'Object(Inner')):
+      cur = f_now[1] if isinstance(f_now, tuple) else f_now
+      other = '4' if cur.get('p') != 4 else '5'
+      cw('rebind-path', f'x.rebind({{"f.p":{other}}})')
+      cw('child-rebind', f'x.f.rebind(p={other})')
+      cw('child-rebind', 'x.f.rebind(q="e")')
+      cw('child-setattr', f'x.f.p={other}')
+      if isinstance(f_now, dict):
+        cw('child-setitem', f'x.f["p"]={other}')
+        cw('child-update', f'x.f.update(p={other})')
+        cw('child-ior', f'x.f.__ior__({{"p":{other}}})')
+        cw('child-clear', 'x.f.clear()')
+  elif hasattr(fd, 'elem') and isinstance(f_now, list) and f_now:
     e = fd.elem
     for lab, s in e.invalid[:3]:
       why = f'invalid element ({lab})'
@@ -1268,12 +1390,20 @@ def dict_ops(sub, fd, present):
       add('child-setitem', f'x.f[0]={s}', 'invalid-element', why)
     for lab, s in e.valid[:1]:
       add('rebind-path', f'x.rebind({{"f[0]":{s}}},**NC)', 'valid-element')
-  if hasattr(fd, 'fields') and isinstance(f_now, dict) and fd.name.startswith('Dict(p'):
+  elif hasattr(fd, 'fields') and isinstance(f_now, dict) and fd.name.startswith('Dict(p'):
     add('rebind-path', 'x.rebind({"f.p":9})', 'invalid-member', 'p: 9 > max 5')
     add('rebind-path', 'x.rebind({"f.zz":1})', 'undeclared-key', 'zz not declared in f')
     add('child-setitem', 'x.f["p"]=9', 'invalid-member', 'p: 9 > max 5')
     add('child-ior', 'x.f.__ior__({"p":9})', 'invalid-member', 'p: 9 > max 5')
     add('child-delitem', 'del x.f["p"]', 'required-removal' if not partial else 'valid-removal',
+        None if partial else 'p is required')
+    add('rebind-path', 'x.rebind({"f.p":5})', 'valid-member')
+  elif hasattr(fd, 'fields') and isinstance(f_now, tuple) and fd.name.startswith('Object(Inner'):
+    add('rebind-path', 'x.rebind({"f.p":9})', 'invalid-member', 'p: 9 > max 5')
+    add('rebind-path', 'x.rebind({"f.zz":1})', 'undeclared-key', 'zz not declared in f')
+    add('child-rebind', 'x.f.rebind(p=9)', 'invalid-member', 'p: 9 > max 5')
+    add('child-setattr', 'x.f.p=9', 'invalid-member', 'p: 9 > max 5')
+    add('child-rebind', 'x.f.rebind(p=M)', 'required-removal' if not partial else 'valid-removal',
         None if partial else 'p is required')
     add('rebind-path', 'x.rebind({"f.p":5})', 'valid-member')
   return ops
@@ -1290,22 +1420,22 @@ def _json_lossy(s):
   return '(' in s and 'Inner(' not in s   # tuples do not survive pg.to_json -> value is not the sample
 
 
-def _run_dict_like(rec, sub, fd, key):
+def _run_dict_like(rec, sub, fd, key, repeat=True, **opts):
   probe = Run(rec, sub)
   if probe.dead:
     return
   present = plain(probe.x)
-  for op in dict_ops(sub, fd, present):
+  for op in dict_ops(sub, fd, present, **opts):
     if op.get('result') is _PARTIAL:
       # result is an explicitly partial value: check it against a partial model
       psub = Subject(sub.kind, sub.setup, sub.root_desc, sub.x_desc, partial=True)
       op = dict(op, result=sub.x_desc)
-      r = Run(rec, sub)
+      r = Run(rec, sub, repeat=repeat)
       r.sub = sub
       ok, raised = _step_partial_result(r, op, key + (op['src'],))
       del psub
       continue
-    r = Run(rec, sub)
+    r = Run(rec, sub, repeat=repeat)
     r.step(op, key + (op['src'],))
 
 
@@ -1371,6 +1501,120 @@ def drv_object_writes(tier, seed):
   return rec.result()
 
 
+# ---------------------------------------------------------------------------
+# Spec modifiers: every base spec x every combination of noneable / default /
+# frozen, as field f of a typed Dict and of a pg.Object.
+# ---------------------------------------------------------------------------
+
+def _modifier_bases(tier):
+  i05 = d_int(0, 5)
+  inner_dict = d_dict([('p', i05), ('q', with_default(d_str(), "'d'"))], name='Dict(p,q=d)')
+  inner_obj = d_object('Inner', [('p', i05), ('q', with_default(d_str(), "'d'"))])
+  # (base, a valid non-None value to use as default / frozen value)
+  bases = [
+      (i05, '4'),
+      (d_str('^[a-c]+$'), "'abc'"),
+      (d_bool(), 'True'),
+      (d_float(0.0, 1.0), '0.5'),
+      (d_enum(), "'b'"),
+      (d_list(i05, 1, 2), '[1, 2]'),
+      (d_tuple([i05, d_str()]), "(1, 'abc')"),
+      (inner_dict, "{'p': 1, 'q': 'd'}"),
+      (inner_obj, 'Inner(p=1)'),
+      (d_union([i05, d_str('^[a-c]+$')]), "'abc'"),
+      (d_any(), "'s'"),
+  ]
+  if tier != 'quick':
+    bases += [(d_str(), "''"), (d_int(), '0'), (d_list(d_str(), 0, None), '[]'),
+              (d_list(inner_dict, 0, 2), "[{'p': 1, 'q': 'd'}]"),
+              (d_union([d_bool(), d_list(i05, 0, 1), inner_dict]), '[1]')]
+  return bases
+
+
+# (label, noneable, default?, freeze: None | 'v' (at the value) | '' (at the current default))
+_MODIFIER_COMBOS = [
+    ('noneable', True, False, None),
+    ('default', False, True, None),
+    ('noneable+default', True, True, None),
+    ('frozen', False, False, 'v'),
+    ('noneable+frozen', True, False, 'v'),
+    ('noneable+frozen-at-None', True, False, 'None'),
+    ('noneable+frozen-at-own-default', True, False, ''),
+    ('default+frozen-at-default', False, True, ''),
+    ('noneable+default+frozen-at-default', True, True, ''),
+]
+
+
+def modifier_vocabulary(tier):
+  out = []
+  for base, v in _modifier_bases(tier):
+    for label, none, dflt, frz in _MODIFIER_COMBOS:
+      if tier == 'quick' and label == 'default+frozen-at-default':
+        continue      # the same spec as 'frozen', built another way
+      if label == 'noneable+frozen-at-own-default' and base.has_default and not hasattr(base, 'fields'):
+        continue      # same spec as noneable+frozen at that default
+      if none and (dflt or frz == 'v') and (hasattr(base, 'elem') or (hasattr(base, 'fields') and not hasattr(base, 'cls_name'))):
+        # pyglove cannot materialize a non-None list/dict default of a noneable
+        # List/Dict spec (TypeError 'Source spec ... is not compatible' when the
+        # default is used, for an Object already at class definition): nothing
+        # can be built to check.  Not a schema violation; reported separately.
+        continue
+      try:
+        d = modified(base, none=none, default=v if dflt else None, freeze=v if frz == 'v' else frz)
+      except ValueError:
+        continue
+      out.append((label, d))
+  return out
+
+
+def _one_per_class(d):
+  """Copy of d keeping one sample per label (input class); first/last valid."""
+  n = Desc(d.name, d.src, d._ok, d.valid, d.invalid, pre=d.pre)  # pylint: disable=protected-access
+  n.__dict__.update(d.__dict__)
+  seen = set()
+  n.invalid = [t for t in d.invalid if not (t[0] in seen or seen.add(t[0]))]
+  keep = [d.valid[0]] + [t for t in d.valid[1:] if t[1] == 'None'] + d.valid[-1:]
+  n.valid = [t for i, t in enumerate(keep) if t not in keep[:i]]
+  return n
+
+
+def _spec_modifiers(tier, mk, title):
+  """Field f carries base spec x modifier combination; all write paths of f."""
+  voc = modifier_vocabulary(tier)
+  if tier == 'quick':
+    voc = [(label, _one_per_class(d)) for label, d in voc]
+  rec = Recorder(
+      'C03', title + ': value-spec modifier combinations on a field',
+      scope=f'{len(voc)} field specs = base specs (Int, Str regex, Bool, Float, Enum, List, Tuple, Dict, Object, Union, Any) x '
+            f'modifier chains {[c[0] for c in _MODIFIER_COMBOS]} (noneable List/Dict with a non-None default excluded: pyglove '
+            'cannot build such a default); field f of the schema {f, g: Int default, h: frozen Int, r: required, StrKey(x.*)}; '
+            'every write path of f (ctor, partial ctor, from_json, []=, attr, update, |=, setdefault, rebind, clone(override), '
+            'MISSING/del/pop, clear, popitem) x one sample per input class of the modified spec in quick, all in thorough '
+            '(None, the frozen value, another value the base spec accepts, values it rejects); writes into the content of a '
+            'frozen container field; modes full and, for noneable+frozen chains (all chains in thorough), partial and '
+            'allow_partial scope; single steps from a valid state (in thorough each rejected write repeated / accepted call probed)')
+  for label, fd in voc:
+    if mk is object_subject and fd.name.startswith('Object('):
+      continue
+    modes = ['full']
+    if fd.frozen and 'noneable' in label or tier != 'quick':
+      modes += ['partial', 'scope']
+    for mode in modes:
+      sub = mk(fd, 'top', mode)
+      _run_dict_like(rec, sub, fd, (fd.name, sub.kind, mode), repeat=(tier != 'quick'), focus=True, fine=True)
+  return rec.result()
+
+
+def drv_spec_modifiers_dict(tier, seed):
+  del seed
+  return _spec_modifiers(tier, dict_subject, 'typed pg.Dict')
+
+
+def drv_spec_modifiers_object(tier, seed):
+  del seed
+  return _spec_modifiers(tier, object_subject, 'pg.Object')
+
+
 def drv_dict_histories(tier, seed):
   """Histories on typed Dict / Object: partial -> filled -> removal etc."""
   rec = Recorder(
@@ -1411,7 +1655,8 @@ def drv_dict_histories(tier, seed):
   return rec.result()
 
 
-DRIVERS = [drv_list_writes, drv_list_histories, drv_dict_writes, drv_object_writes, drv_dict_histories]
+DRIVERS = [drv_list_writes, drv_list_histories, drv_dict_writes, drv_object_writes, drv_dict_histories,
+           drv_spec_modifiers_dict, drv_spec_modifiers_object]
 
 
 def replay(rec):
